@@ -570,6 +570,11 @@ class LockShim:
         self._sc, self._real = sc, real
 
     def RLock(self):
+        # creating a lock is an operation like any other: when a scheduled thread does it (a lock made on first use
+        # rather than in the constructor), another thread may run first
+        tid = self._sc._tid()
+        if tid is not None:
+            self._sc.yield_point(tid, None, None, True)
         return sched.SchedLock(self._sc, self._real.RLock(), 'port-lock')
 
     def __getattr__(self, name):
